@@ -309,3 +309,161 @@ Definition run_encaps (eot : option (list Z)) (bot : list Z) (its : list (Z * bo
 
 Definition run_reader_native (bits npx n : Z) (pd : list Z) (idx : list Z) : val :=
   VL (map (fun i => vres vz_list (read_frame_raw_native bits npx n pd i)) idx).
+
+(* ================================================================== *)
+(* colour layout (PlanarConfiguration), image geometry, and the cache  *)
+(* of the decoded array                                                *)
+(* ================================================================== *)
+(* fmt + SamplesPerPixel, PlanarConfiguration = 1, Rows (Columns = npx / (Rows * spp)) *)
+Record cfmt := CFmt { c_fmt : fmt; c_spp : Z; c_planar : bool; c_rows : Z }.
+
+(* pydicom reshape_pixel_array: a frame stored colour-by-plane (spp planes of rc samples each)
+   is returned as (rows, columns, samples): out[p * spp + s] = in[s * rc + p] *)
+Definition deplane (planar : bool) (spp : Z) (l : list Z) : list Z :=
+  if planar then
+    map (fun k => nth (Z.to_nat ((k mod spp) * (zlen l / spp) + k / spp)) l 0) (zrange (zlen l))
+  else l.
+Definition deplane_on (c : cfmt) : list Z -> list Z := deplane (c_planar c) (c_spp c).
+Definition rmap {A B} (g : A -> B) (r : res A) : res B := bind r (fun a => Ok (g a)).
+
+(* frame.py decode_frame with planar_configuration handed to the one-frame dataset; the
+   bit-packed branch only reshapes (it never looks at the planar configuration) *)
+Definition decode_native_c (c : cfmt) (idx : Z) (value : list Z) : res (list Z) :=
+  let m := c_fmt c in
+  let r := decode_native (f_bits m) (f_stored m) (f_signed m) (f_npx m) idx value in
+  if f_bits m =? 1 then r else rmap (deplane_on c) r.
+
+Definition frame_eager_c (c : cfmt) (pd : list Z) (i : Z) : res (list Z) :=
+  decode_native_c c i (raw_of_range (eager_range (f_bits (c_fmt c)) (f_npx (c_fmt c)) i) pd).
+Definition frame_lazy_c (c : cfmt) (pd : list Z) (i : Z) : res (list Z) :=
+  decode_native_c c i (raw_of_range (lazy_range (f_bits (c_fmt c)) (f_npx (c_fmt c)) i) pd).
+(* pydicom Dataset.pixel_array of the whole image, split into frames *)
+Definition whole_array_c (c : cfmt) (pd : list Z) : res (list (list Z)) :=
+  rmap (map (deplane_on c)) (whole_array (c_fmt c) pd).
+Definition frame_of_array_c (c : cfmt) (pd : list Z) (i : Z) : res (list Z) :=
+  bind (whole_array_c c pd) (fun fs => Ok (nth (Z.to_nat i) fs [])).
+
+(* ---- in-memory image with pydicom's cache of the decoded array ---- *)
+(* i_cache = Some (c, pd): Dataset._pixel_array holds the array decoded when the image
+   description was c and PixelData was pd (Dataset._pixel_id records the ids of those
+   element values; equal ids <-> unchanged values as long as replaced values stay alive) *)
+Record img := Img { i_c : cfmt; i_pd : list Z; i_cache : option (cfmt * list Z) }.
+
+Definition fmt_eqb (a b : fmt) : bool :=
+  (f_bits a =? f_bits b) && (f_stored a =? f_stored b) && Bool.eqb (f_signed a) (f_signed b)
+  && (f_npx a =? f_npx b) && (f_frames a =? f_frames b).
+Definition cfmt_eqb (a b : cfmt) : bool :=
+  fmt_eqb (c_fmt a) (c_fmt b) && (c_spp a =? c_spp b) && Bool.eqb (c_planar a) (c_planar b)
+  && (c_rows a =? c_rows b).
+Fixpoint zlist_eqb (a b : list Z) : bool :=
+  match a, b with
+  | [], [] => true
+  | x :: a', y :: b' => (x =? y) && zlist_eqb a' b'
+  | _, _ => false
+  end.
+
+(* pydicom Dataset.pixel_array / convert_pixel_data: the cached array is returned only if
+   nothing that describes the pixels changed since it was decoded; otherwise decode again *)
+Definition pixel_array (st : img) : img * res (list (list Z)) :=
+  let fresh := match whole_array_c (i_c st) (i_pd st) with
+               | Ok a => (Img (i_c st) (i_pd st) (Some (i_c st, i_pd st)), Ok a)
+               | Err k => (st, Err k)
+               end in
+  match i_cache st with
+  | Some (c, pd) =>
+      if cfmt_eqb c (i_c st) && zlist_eqb pd (i_pd st) then (st, whole_array_c c pd) else fresh
+  | None => fresh
+  end.
+
+(* image.py get_stored_frame on an in-memory image *)
+Definition st_one (st : img) (f : Z) (ai : bool) : img * res (list Z) :=
+  match std_index (f_frames (c_fmt (i_c st))) f ai with
+  | Err k => (st, Err k)
+  | Ok i =>
+      match i_cache st with
+      | None => (st, frame_eager_c (i_c st) (i_pd st) i)          (* self._pixel_array is None *)
+      | Some _ => let p := pixel_array st in                      (* self.pixel_array[frame_index] *)
+                  (fst p, bind (snd p) (fun fs => Ok (nth (Z.to_nat i) fs [])))
+      end
+  end.
+
+(* image.py get_stored_frames: the same body per frame number, then np.stack *)
+Fixpoint st_batch_loop (st : img) (fs : list Z) (ai : bool) : img * res (list (list Z)) :=
+  match fs with
+  | [] => (st, Ok [])
+  | f :: r =>
+      let p := st_one st f ai in
+      match snd p with
+      | Err k => (fst p, Err k)
+      | Ok a => let q := st_batch_loop (fst p) r ai in (fst q, rmap (cons a) (snd q))
+      end
+  end.
+Definition st_batch (st : img) (fs : list Z) (ai : bool) : img * res (list (list Z)) :=
+  let p := st_batch_loop st fs ai in
+  match snd p, fs with
+  | Ok _, [] => (fst p, Err "ValueError")       (* np.stack of an empty list *)
+  | _, _ => p
+  end.
+
+(* decode_frame(get_raw_frame(f), index = standardised index) *)
+Definition st_decode_raw (st : img) (f : Z) (ai : bool) : res (list Z) :=
+  let m := c_fmt (i_c st) in
+  bind (std_index (f_frames m) f ai) (fun i =>
+    bind (get_raw_frame false m (i_pd st) f ai) (fun raw => decode_native_c (i_c st) i raw)).
+
+Inductive op :=
+| OWhole                                  (* im.pixel_array *)
+| OOne (f : Z) (ai : bool)                (* im.get_stored_frame(f, as_index=ai) *)
+| OBatch (fs : list Z) (ai : bool)        (* im.get_stored_frames(fs, as_indices=ai) *)
+| ORaw (f : Z) (ai : bool)                (* im.get_raw_frame(f, as_index=ai) *)
+| ODecodeRaw (f : Z) (ai : bool)          (* decode_frame(im.get_raw_frame(f), ..., index) *)
+| OAssign (pd : list Z)                   (* im.PixelData = pd : Dataset.__setitem__ drops the cache *)
+| OInplace (pd : list Z)                  (* im['PixelData'].value = pd : cache object untouched *)
+| OHeader (c : cfmt).                     (* im.PixelRepresentation = ..., BitsStored, Rows/Columns,
+                                             PlanarConfiguration : cache object untouched *)
+
+(* what a caller can see of an answer: dtype, shape of one frame, values *)
+Definition shape_of (c : cfmt) : list Z :=
+  let cols := f_npx (c_fmt c) / (c_rows c * c_spp c) in
+  if c_spp c =? 1 then [c_rows c; cols] else [c_rows c; cols; c_spp c].
+Definition meta (c : cfmt) : val :=
+  VL [VS (dtype_name (f_bits (c_fmt c)) (f_signed (c_fmt c))); vz_list (shape_of c)].
+Definition vans {A} (c : cfmt) (g : A -> val) (r : res A) : val :=
+  match r with Ok a => VL [meta c; g a] | Err k => VErr k end.
+
+Definition step (st : img) (o : op) : img * val :=
+  let c := i_c st in
+  match o with
+  | OWhole => let p := pixel_array st in (fst p, vans c vz_list2 (snd p))
+  | OOne f ai => let p := st_one st f ai in (fst p, vans c vz_list (snd p))
+  | OBatch fs ai => let p := st_batch st fs ai in (fst p, vans c vz_list2 (snd p))
+  | ORaw f ai => (st, vres vz_list (get_raw_frame false (c_fmt c) (i_pd st) f ai))
+  | ODecodeRaw f ai => (st, vans c vz_list (st_decode_raw st f ai))
+  | OAssign pd => (Img c pd None, VNone)
+  | OInplace pd => (Img c pd (i_cache st), VNone)
+  | OHeader c' => (Img c' (i_pd st) (i_cache st), VNone)
+  end.
+
+Fixpoint run_ops (st : img) (ops : list op) : list val :=
+  match ops with
+  | [] => []
+  | o :: r => let p := step st o in snd p :: run_ops (fst p) r
+  end.
+
+(* a freshly constructed / eagerly read image, then a sequence of reads and edits *)
+Definition run_history (c : cfmt) (pd : list Z) (ops : list op) : val :=
+  VL (run_ops (Img c pd None) ops).
+
+(* all native paths of one colour image (same observation as run_native) *)
+Definition run_native_c (c : cfmt) (pd : list Z) : val :=
+  let m := c_fmt c in
+  let n := f_frames m in
+  let idx := zrange n in
+  let nums := map (fun k => k + 1) idx in
+  let one := sequence (map (frame_eager_c c pd) idx) in
+  let lz := sequence (map (frame_lazy_c c pd) idx) in
+  let cached := sequence (map (frame_of_array_c c pd) idx) in
+  let raws := sequence (map (fun f => get_raw_frame false m pd f false) nums) in
+  let raws_lz := sequence (map (fun f => get_raw_frame true m pd f false) nums) in
+  VL [VS (dtype_name (f_bits m) (f_signed m)); vframes one; VB (res_eqb lz one); VB (res_eqb cached one);
+      VB (res_eqb (whole_array_c c pd) one); vframes raws; VB (res_eqb raws_lz raws)].
